@@ -65,7 +65,7 @@ impl Op {
                 if *replace { "" } else { "-noreplace" },
                 if *fix_key { "-fixkey" } else if *encrypt { "-enc" } else { "" },
                 if *method == 0 { "-raw" } else { "" },
-                ""
+                if *method >= 4 { "-noencoder" } else { "" }
             ),
             Op::Remove { .. } => "remove".into(),
             Op::Rename { .. } => "rename".into(),
@@ -128,7 +128,9 @@ fn method_of(m: u8) -> CompressionMethod {
         0 => CompressionMethod::None,
         1 => CompressionMethod::Zlib,
         2 => CompressionMethod::BZip2,
-        _ => CompressionMethod::Lzma,
+        3 => CompressionMethod::Lzma,
+        // a method the library has no encoder for: the add must fail and change nothing
+        _ => CompressionMethod::Implode,
     }
 }
 
@@ -349,7 +351,7 @@ fn run_history(h: &History) -> Result<(), Fail> {
 
 fn op_strategy() -> impl Strategy<Value = Op> {
     prop_oneof![
-        6 => (prop_oneof![8 => 0u8..CORE as u8, 2 => CORE as u8..POOL as u8], class_strategy(), prop_oneof![0u16..40, 400u16..1600], any::<u32>(), 0u8..4, prop_oneof![3 => Just(false), 1 => Just(true)], prop_oneof![7 => Just(false), 1 => Just(true)], prop_oneof![4 => Just(true), 1 => Just(false)])
+        6 => (prop_oneof![8 => 0u8..CORE as u8, 2 => CORE as u8..POOL as u8], class_strategy(), prop_oneof![0u16..40, 400u16..1600], any::<u32>(), prop_oneof![12 => 0u8..4, 1 => Just(4u8)], prop_oneof![3 => Just(false), 1 => Just(true)], prop_oneof![7 => Just(false), 1 => Just(true)], prop_oneof![4 => Just(true), 1 => Just(false)])
             .prop_map(|(name, class, len, seed, method, e, fk, replace)| Op::Add { name, class, len, seed, method, encrypt: e || fk, fix_key: fk, replace }),
         2 => (prop_oneof![8 => 0u8..CORE as u8, 2 => CORE as u8..POOL as u8]).prop_map(|name| Op::Remove { name }),
         2 => (0u8..CORE as u8, prop_oneof![8 => 0u8..CORE as u8, 2 => CORE as u8..POOL as u8]).prop_map(|(from, to)| Op::Rename { from, to }),
@@ -420,6 +422,7 @@ fn alphabet() -> Vec<Op> {
         add(1, 2),
         add(2, 3),
         Op::Add { name: 8, class: ContentClass::Random, len: 33, seed: 4, method: 0, encrypt: false, fix_key: false, replace: true }, // add-over A via alias
+        Op::Add { name: 0, class: ContentClass::Text, len: 700, seed: 5, method: 4, encrypt: false, fix_key: false, replace: true }, // replace that fails (no encoder)
         Op::Remove { name: 0 },
         Op::Remove { name: 1 },
         Op::Rename { from: 0, to: 1 },
@@ -539,7 +542,7 @@ fn main() {
         "histories over {add (content class, 0..1600 bytes, none/zlib/bzip2/LZMA, plain/encrypted, replace flag), remove, rename, compact, flush, reopen} on a pool of 10 names \
          (4 that share a hash-table start slot modulo 16, a name that is a substring of another, 2 case/slash aliases), starting from V1..V4 archives with/without listfile and attributes \
          and 0..4 initial files; interpreted against MutableArchive and a BTreeMap model in a supervised worker; state compared after every reopen and at the end through the read-only Archive \
-         (all pool names + listing). Bounded-exhaustive: every sequence of length ≤3 (thorough ≤4) over a 12-letter alphabet × 6 starting shapes; random: proptest histories of 1..60 ops. \
+         (all pool names + listing). Bounded-exhaustive: every sequence of length ≤3 (thorough ≤4) over a 13-letter alphabet × 6 starting shapes; random: proptest histories of 1..60 ops. \
          non-trivial = a mutation followed by a reopen plus one of: compaction after a delete, rename, replacement, ≥12 additions; distinct = start shape × length class × set of op kinds",
     );
     check.assume("reads through the still-open MutableArchive are not judged (the statement is about the state after close and reopen)");
